@@ -40,6 +40,9 @@ pub struct Case {
     /// exit status per rec invocation (index = order of invocation); 256+s = die by signal s
     pub script: Vec<u16>,
     pub binary: bool,
+    /// binary only: find is started with SIGCHLD ignored
+    #[serde(default)]
+    pub sigchld_ignored: bool,
     pub depth: bool,
 }
 
@@ -89,7 +92,7 @@ pub fn gen_case(g: &mut Gen) -> Case {
         2 => 255,
         _ => 256 + g.pick(&[15u16, 9, 10]),
     });
-    Case { tree: TreeSpec { nodes }, root: g.pick(&["c/r", "c/r", "./c/r", "c/r/", "c//r", "c/r/.", "c/r/./", "c/up/../r", "c/up/.."]).to_string(), actions, shape: g.below(4) as u8, script, binary: g.chance(1, 8), depth: g.chance(1, 5) }
+    Case { tree: TreeSpec { nodes }, root: g.pick(&["c/r", "c/r", "./c/r", "c/r/", "c//r", "c/r/.", "c/r/./", "c/up/../r", "c/up/.."]).to_string(), actions, shape: g.below(4) as u8, script, binary: g.chance(1, 8), depth: g.chance(1, 5), sigchld_ignored: g.chance(1, 4) }
 }
 
 fn substitute(t: &str, path: &str) -> String {
@@ -265,7 +268,7 @@ pub fn check(ctx: &mut Ctx, c: &Case) -> Outcome {
     let script = script_text(&c.script);
     let (status, stdout, stderr, panic) = if c.binary {
         let a: Vec<OsString> = args.iter().map(OsString::from).collect();
-        let o = ctx.run_bin(&find_bin(), &a, &BinOpts { env: vec![("VERIF_REC_LOG".into(), log.clone().into_os_string()), ("VERIF_REC_SCRIPT".into(), script.clone().into()), ("VERIF_REC_STDOUT".into(), "1".into())], ..Default::default() });
+        let o = ctx.run_bin(&find_bin(), &a, &BinOpts { env: vec![("VERIF_REC_LOG".into(), log.clone().into_os_string()), ("VERIF_REC_SCRIPT".into(), script.clone().into()), ("VERIF_REC_STDOUT".into(), "1".into())], ignore_sigchld: c.sigchld_ignored, ..Default::default() });
         if !o.ordinary() {
             return fail("C09:abnormal-termination:binary", format!("find {args:?}\nexit {:?} signal {:?}\nstderr {:?}", o.code, o.signal, lossy(&o.stderr)));
         }
@@ -323,6 +326,7 @@ pub fn check(ctx: &mut Ctx, c: &Case) -> Outcome {
         .class_if(used_actions.iter().any(|a| a.cmd == 1), "missing-command")
         .class_if(used_actions.iter().any(|a| a.cmd >= 4), "command-exists-but-cannot-be-run")
         .class_if(c.binary, "through-binary")
+        .class_if(c.binary && c.sigchld_ignored, "started-with-SIGCHLD-ignored")
         .class_if(multi, "several-braces-in-one-argument")
         .class_if(entries.iter().any(|e| e.name().contains('\n')), "newline-in-name")
         .sample(json!({"cmdline": format!("find {}", args.join(" ")), "script": script, "runs": got.len()}))
